@@ -447,11 +447,14 @@ class Crate:
         """like walk_fn, but also enters the bodies of functions of this crate that f calls (private helpers), bounded depth;
         yields (node, ancestors, owner_fn).  `exclude`: callee paths not to enter (the functions a rule treats as events)."""
         _seen = _seen if _seen is not None else {f.path}
+        known = ref_fns().get(self.name)
         for n, a in self.walk_fn(f):
             yield n, a, f
             if depth > 0 and n.get('k') == 'call':
                 c = callee(n)
                 g = self.fns.get(c)
+                if known is not None and c not in known:
+                    continue     # a function that is new relative to the reference tree: walk_fn has entered it already
                 if g is not None and c not in exclude and c not in _seen and getattr(g, 'hir', None) is not None and g.kind != 'Closure':
                     _seen.add(c)
                     yield from self.walk_fn_deep(g, exclude, depth - 1, _seen)
